@@ -1248,10 +1248,12 @@ func (s *Session) fireDisturbances(pend []*request) (fired bool) {
 			}
 		case "printf":
 			n := s.nApp
-			s.startTask("app", func() { s.Sh.Printf("async message %d", n) })
+			msg := d.Msg
+			s.startTask("app", func() { s.Sh.Printf("async message %d%s", n, msg) })
 		case "printtransientf":
 			n := s.nApp
-			s.startTask("app", func() { s.Sh.PrintTransientf("transient message %d", n) })
+			msg := d.Msg
+			s.startTask("app", func() { s.Sh.PrintTransientf("transient message %d%s", n, msg) })
 		}
 	}
 	return fired
